@@ -112,7 +112,7 @@ def _lit(r, a):
 
 CANARIES = ['1 / 3', '2 ** 0.5', '10 / 7 * 3', '1 / 3 + 0.1 * 3', '(2 / 3) | round(3)', '1234567.891 | pretty', '[3, 1, 2] | sorted', '"a b  c" | split',
             '{"b": 1, "a": [1, 2]} | pretty', 'match("Ab1", "b\\d", "i")', '[1 / 7, 2 / 7] | sum', '100 / 3 | str', '0.1 + 0.2', '2 ** 100', '(1 / 3) * 3 == 1',
-            '"x" + 1 / 3', 'k9 = (a, v) => [push(a, v), len(a)][1]\nk9([], 1)', 'k8 = (dd, v) => [__setitem__(dd, "k" + v, v), len(dd)][1]\nk8({}, 1)',
+            '3 ** -3000000', '(1 / 3) ** 2500000', '10 ** 999999 * 10', '"x" + 1 / 3', 'k9 = (a, v) => [push(a, v), len(a)][1]\nk9([], 1)', 'k8 = (dd, v) => [__setitem__(dd, "k" + v, v), len(dd)][1]\nk8({}, 1)',
             'k7 = (a, v) => [insert(a, 0, v), a][1]\nk7([], 2)', 'k6 = a => [push(a, 9), len(a)][1]\nk6([1, 2])', 'get({"q": 1}, "zz", []) | push(3)', '[1, 2, 3] | map(v => v / 3) | max', '7 | float', '"1.10" | float', '1 / 3 | floor', '-7 / 2 | round']
 
 
